@@ -37,6 +37,9 @@ pub struct St {
     pub wr_added: [Vec<Vec<(Trig, Entity)>>; NT],
     /// Actions of the current frame for the three frame systems (app mode): (run id, first seq, actions).
     pub frame_acts: [Option<(RunId, u32, Vec<Act>)>; 3],
+    /// Entity of the system command whose run the runner began most recently (from the runner hook); lets the
+    /// zero-sized body find out which registration it is running for.
+    pub last_target: u64,
     pub fuel: u32,
     pub next_pay: u32,
     pub next_run: u32,
@@ -80,11 +83,40 @@ pub struct Wr<const N: u8> {
     pub sh: Arc<Shared>,
     pub inst: Inst,
 }
-impl<const N: u8> WorldReactor for Wr<N> {
+impl WorldReactor for Wr<0> {
     type StartingTriggers = ();
     type Triggers = DynBundle;
     fn reactor(self) -> SystemCommandCallback {
         SystemCommandCallback::new(make_body_ord(self.inst, self.sh))
+    }
+}
+/// World reactor 1 is added with `App::add_world_reactor_with` and (possibly empty) starting triggers.
+impl WorldReactor for Wr<1> {
+    type StartingTriggers = DynBundle;
+    type Triggers = DynBundle;
+    fn reactor(self) -> SystemCommandCallback {
+        SystemCommandCallback::new(make_body_ord(self.inst, self.sh))
+    }
+}
+
+/// `App::add_reactor`, generic over the bundle type.
+struct AppRegFn<'a> {
+    app: &'a mut App,
+    inst: Inst,
+    flavour: Flavour,
+    sh: &'a Arc<Shared>,
+}
+impl<'a> BundleFn for AppRegFn<'a> {
+    type Out = ();
+    fn call<B: ReactionTriggerBundle>(self, b: B) {
+        let AppRegFn { app, inst, flavour, sh } = self;
+        match flavour {
+            Flavour::Ord => app.add_reactor(b, make_body_ord(inst, sh.clone())),
+            Flavour::Excl => app.add_reactor(b, make_body_excl(inst, sh.clone())),
+            Flavour::DropErr => app.add_reactor(b, make_body_drop_err(inst, sh.clone())),
+            Flavour::WarnErr => app.add_reactor(b, make_body_warn_err(inst, sh.clone())),
+            Flavour::Zst => app.add_reactor(b, zst_body),
+        };
     }
 }
 
@@ -209,6 +241,28 @@ pub fn make_body_warn_err(
     }
 }
 
+/// The zero-sized reactor / system body: a plain `fn` item. All registrations of it share one function type; it finds
+/// out which registration is running from the runner hook (`St::last_target`). Its only state is its `Local`s: the run
+/// counter and a canary created on the first run (dropped with the system state).
+pub fn zst_body(mut r: Readers, mut acc: Access, mut wr: WrAccess, mut c: Commands, mut l: Local<u32>, mut can: Local<Option<Canary>>, shr: Res<ShRes>) {
+    let sh = shr.0.clone();
+    *l += 1;
+    let inst = {
+        let st = lk(&sh.st);
+        let t = st.last_target;
+        st.systems.iter().position(|s| ebits(*s.cmd) == t)
+    };
+    let Some(inst) = inst else { panic!("the zero-sized harness system ran for a system entity the harness does not know") };
+    if can.is_none() {
+        *can = Some(Canary { inst, sh: sh.clone() });
+    }
+    let (obs, held) = sample(&mut r);
+    let ctx = begin_run(&sh, inst, *l, *l, obs);
+    drop(held);
+    exec_acts(&sh, ctx.run, &ctx.acts, &mut c, &mut acc, Some(&mut wr));
+    sh.push(Ev::BodyEnd { run: ctx.run, err: false });
+}
+
 type ExclState = SystemState<(Readers<'static, 'static>, Access<'static, 'static>, WrAccess<'static>, Commands<'static, 'static>)>;
 
 pub fn make_body_excl(
@@ -285,6 +339,7 @@ fn spawn_body(c: &mut Commands, inst: Inst, flavour: Flavour, sh: &Arc<Shared>) 
         Flavour::Excl => c.spawn_system_command(make_body_excl(inst, sh.clone())),
         Flavour::DropErr => c.spawn_system_command(make_body_drop_err(inst, sh.clone())),
         Flavour::WarnErr => c.spawn_system_command(make_body_warn_err(inst, sh.clone())),
+        Flavour::Zst => c.spawn_system_command(zst_body),
     }
 }
 
@@ -311,6 +366,7 @@ impl<'a, 'w, 's> BundleFn for RegFn<'a, 'w, 's> {
                 Flavour::Excl => c.react().once(b, make_body_excl(inst, sh.clone())),
                 Flavour::DropErr => c.react().once(b, make_body_drop_err(inst, sh.clone())),
                 Flavour::WarnErr => c.react().once(b, make_body_warn_err(inst, sh.clone())),
+                Flavour::Zst => c.react().once(b, zst_body),
             };
             return (Some(SystemCommand::from(tok.clone())), Some(tok));
         }
@@ -326,6 +382,7 @@ impl<'a, 'w, 's> BundleFn for RegFn<'a, 'w, 's> {
                     Flavour::Excl => c.react().on_persistent(b, make_body_excl(inst, sh.clone())),
                     Flavour::DropErr => c.react().on_persistent(b, make_body_drop_err(inst, sh.clone())),
                     Flavour::WarnErr => c.react().on_persistent(b, make_body_warn_err(inst, sh.clone())),
+                    Flavour::Zst => c.react().on_persistent(b, zst_body),
                 };
                 (Some(sc), None)
             }
@@ -335,6 +392,7 @@ impl<'a, 'w, 's> BundleFn for RegFn<'a, 'w, 's> {
                     Flavour::Excl => c.react().on_revokable(b, make_body_excl(inst, sh.clone())),
                     Flavour::DropErr => c.react().on_revokable(b, make_body_drop_err(inst, sh.clone())),
                     Flavour::WarnErr => c.react().on_revokable(b, make_body_warn_err(inst, sh.clone())),
+                    Flavour::Zst => c.react().on_revokable(b, zst_body),
                 };
                 (Some(SystemCommand::from(tok.clone())), Some(tok))
             }
@@ -345,6 +403,7 @@ impl<'a, 'w, 's> BundleFn for RegFn<'a, 'w, 's> {
                     Flavour::Excl => c.react().on(b, make_body_excl(inst, sh.clone())),
                     Flavour::DropErr => c.react().on(b, make_body_drop_err(inst, sh.clone())),
                     Flavour::WarnErr => c.react().on(b, make_body_warn_err(inst, sh.clone())),
+                    Flavour::Zst => c.react().on(b, zst_body),
                 }
                 (None, None)
             }
@@ -901,6 +960,19 @@ pub fn exec_act(sh: &Arc<Shared>, run: RunId, seq: u32, a: &Act, c: &mut Command
             };
             issued(sh, run, seq, cmd, RAct::EwAdd { ew: n, inst, ent: ebits(e), data });
             q_pre(c, sh, cmd);
+            // every second data value goes through the `EntityCommands` form of the same operation
+            let mut via_entity_commands = false;
+            if (data / 10) % 2 == 0 {
+                if let Some(mut ec) = c.get_entity(e) {
+                    if n == 0 {
+                        ec.add_world_reactor::<Ew<0>>(data);
+                    } else {
+                        ec.add_world_reactor::<Ew<1>>(data);
+                    }
+                    via_entity_commands = true;
+                }
+            }
+            let wr = if via_entity_commands { q_post(c, sh, cmd); return; } else { wr };
             match wr {
                 Some(wr) => {
                     if n == 0 {
@@ -1222,10 +1294,8 @@ pub struct Harness {
     pub sh: Arc<Shared>,
 }
 
-pub fn make_world(prog: Arc<Program>) -> Harness {
-    let mut app = App::new();
-    app.add_plugins(ReactPlugin);
-    let sh = Arc::new(Shared {
+pub fn new_shared(prog: &Arc<Program>) -> Arc<Shared> {
+    Arc::new(Shared {
         trace: Mutex::new(Vec::with_capacity(1024)),
         st: Mutex::new(St {
             prog: prog.clone(),
@@ -1240,12 +1310,18 @@ pub fn make_world(prog: Arc<Program>) -> Harness {
             probe_inst: 0,
             wr_added: Default::default(),
             frame_acts: [None, None, None],
+            last_target: 0,
             fuel: 0,
             next_pay: 1,
             next_run: 1,
             next_cmd: 1,
         }),
-    });
+    })
+}
+
+pub fn make_world(prog: Arc<Program>, sh: Arc<Shared>) -> Harness {
+    let mut app = App::new();
+    app.add_plugins(ReactPlugin);
     {
         let w = app.world_mut();
         w.insert_react_resource(Rr::<0>(0));
@@ -1279,6 +1355,7 @@ pub fn make_world(prog: Arc<Program>) -> Harness {
     // world reactors, entity world reactors, probe
     let nscripts = prog.scripts.len().max(1);
     let mut add_sys = |app: &mut App, kind: SysKindTag, script: usize| -> Inst {
+        let mut pending_post: Option<CmdId> = None;
         let before = all_entities(app.world_mut());
         let inst = lk(&sh.st).systems.len();
         match kind {
@@ -1286,7 +1363,20 @@ pub fn make_world(prog: Arc<Program>) -> Harness {
                 app.add_world_reactor(Wr::<0> { sh: sh.clone(), inst });
             }
             SysKindTag::WorldReactor(_) => {
-                app.add_world_reactor(Wr::<1> { sh: sh.clone(), inst });
+                // starting triggers: registered like a `Reactor::add` issued while the app is built
+                let items = lk(&sh.st).items(&prog.wr_start);
+                let b = DynBundle::new(&items);
+                if items.is_empty() {
+                    app.add_world_reactor_with(Wr::<1> { sh: sh.clone(), inst }, b);
+                } else {
+                    let cmd = new_cmd(&sh);
+                    issued(&sh, 0, 0, cmd, RAct::WrAdd { wr: 1, inst, bundle: b.resolved() });
+                    direct_pre(app.world_mut(), &sh, cmd);
+                    app.add_world_reactor_with(Wr::<1> { sh: sh.clone(), inst }, b);
+                    lk(&sh.st).wr_added[1].push(items.clone());
+                    // the instance is registered below; the ledger only needs the bracket
+                    pending_post = Some(cmd);
+                }
             }
             SysKindTag::EntityWorldReactor(0) => {
                 app.add_entity_reactor(Ew::<0> { sh: sh.clone(), inst });
@@ -1310,6 +1400,9 @@ pub fn make_world(prog: Arc<Program>) -> Harness {
         });
         drop(st);
         sh.push(Ev::SysCreated { inst, ent: ebits(e), kind, flavour: Flavour::Ord, script: script % nscripts });
+        if let Some(cmd) = pending_post {
+            direct_post(app.world_mut(), &sh, cmd);
+        }
         inst
     };
     let wr0 = add_sys(&mut app, SysKindTag::WorldReactor(0), 0);
@@ -1323,6 +1416,43 @@ pub fn make_world(prog: Arc<Program>) -> Harness {
         st.ew_inst = [ew0, ew1];
         st.probe_inst = probe;
     }
+    // reactors registered through `App::add_reactor` while the app is built
+    for (k, ar) in prog.app_reactors.iter().enumerate() {
+        let before = all_entities(app.world_mut());
+        let (inst, items) = {
+            let st = lk(&sh.st);
+            (st.systems.len(), st.items(&ar.bundle))
+        };
+        if inst >= MAX_INST {
+            break;
+        }
+        let b = DynBundle::new(&items);
+        let cmd = new_cmd(&sh);
+        let script_idx = ar.script as usize % nscripts;
+        issued(
+            &sh,
+            0,
+            k as u32 + 1,
+            cmd,
+            RAct::Register { inst, mode: Mode::Persistent, once: false, flavour: ar.flavour, script: script_idx, bundle: b.resolved(), form: 2 * N_SHAPES + ar.shape % N_SHAPES },
+        );
+        direct_pre(app.world_mut(), &sh, cmd);
+        let alive: Vec<bool> = items.iter().map(|(_, e)| *e == Entity::PLACEHOLDER || app.world().get_entity(*e).is_ok()).collect();
+        with_bundle(&items, ar.shape, AppRegFn { app: &mut app, inst, flavour: ar.flavour, sh: &sh });
+        let after = all_entities(app.world_mut());
+        let new: Vec<Entity> = after.into_iter().filter(|e| !before.contains(e)).collect();
+        if new.len() != 1 {
+            panic!("App::add_reactor created {} entities (expected exactly 1: the reactor's own system) for app reactor {k}", new.len());
+        }
+        {
+            let mut st = lk(&sh.st);
+            st.systems.push(SysInfo { cmd: SystemCommand(new[0]), kind: SysKindTag::Reactor, flavour: ar.flavour, script: script_idx, mode: Some(Mode::Persistent) });
+            st.published.push(inst);
+        }
+        sh.push(Ev::SysCreated { inst, ent: ebits(new[0]), kind: SysKindTag::Reactor, flavour: ar.flavour, script: script_idx });
+        applied(&sh, cmd, Note::Registered { inst, alive, token: None, sys_alive: true });
+        direct_post(app.world_mut(), &sh, cmd);
+    }
     if prog.ops.iter().any(|o| o.entry == Entry::Frame) {
         add_frame_systems(&mut app, prog.frame_order);
     }
@@ -1330,6 +1460,9 @@ pub fn make_world(prog: Arc<Program>) -> Harness {
     {
         let sh2 = sh.clone();
         app.world_mut().insert_resource(hooks::RunnerSink(Box::new(move |ev| {
+            if let hooks::RunnerEvent::RunBegin { target } = ev {
+                lk(&sh2.st).last_target = ebits(target);
+            }
             sh2.push(Ev::Hook(convert_hook(ev)));
         })));
     }
@@ -1696,8 +1829,30 @@ pub struct Execution {
     pub panicked: Option<String>,
 }
 
+fn panic_msg(p: &Box<dyn std::any::Any + Send>) -> String {
+    if let Some(s) = p.downcast_ref::<&str>() {
+        s.to_string()
+    } else if let Some(s) = p.downcast_ref::<String>() {
+        s.clone()
+    } else {
+        "<non-string panic>".to_string()
+    }
+}
+
 pub fn execute(prog: &Arc<Program>) -> Execution {
-    let mut h = make_world(prog.clone());
+    let sh0 = new_shared(prog);
+    let built = catch_unwind(AssertUnwindSafe(|| make_world(prog.clone(), sh0.clone())));
+    let mut h = match built {
+        Ok(h) => h,
+        Err(p) => {
+            // registration while the app is built panicked: an observation like any other panic
+            let msg = panic_msg(&p);
+            sh0.push(Ev::Panic { op: 0, msg: msg.clone() });
+            sh0.push(Ev::End);
+            let trace = std::mem::take(&mut *lk(&sh0.trace));
+            return Execution { trace, panicked: Some(msg) };
+        }
+    };
     let mut panicked = None;
     for (i, op) in prog.ops.iter().enumerate() {
         let res = catch_unwind(AssertUnwindSafe(|| run_op(&mut h, i, op)));
